@@ -152,6 +152,8 @@ func oracle(v reflect.Value) error {
 	})
 }
 
+var pool hx.Pool[Case]
+
 func evaluate(c *Case, src tlx.Src) error {
 	rec := &tlx.Recorder{In: src}
 	var v reflect.Value
@@ -329,6 +331,26 @@ func TestC01(t *testing.T) {
 				}
 				hx.Fail(t, run, c, err)
 			}
+			if !c.Big && c.Huge == 0 {
+				pool.Add(*c)
+			}
+		})
+	})
+	if t.Failed() {
+		return
+	}
+	t.Run("concurrent", func(t *testing.T) {
+		// senders and the receive loop serialise and deserialise at the same time
+		hx.RunConcurrent(t, run, pool.Items, 8, run.Pick(2, 40), func(c Case) error {
+			var v reflect.Value
+			if err := hx.Safely(func() error {
+				var e error
+				v, _, e = build(&c, &tlx.Replay{Draws: c.Draws})
+				return e
+			}); err != nil {
+				return fmt.Errorf("INFRA: builder: %v", err)
+			}
+			return oracle(v)
 		})
 	})
 }
